@@ -29,6 +29,10 @@ CLAIMED = {
    "Every pair of the lattice operand alphabet over all 28 type pairs (incl. collections with overlapping members, empties, holes family, many-part geometries under 32 translations so the internal R-tree has several levels, exact and general-position affine images) is run through Intersects (both orders), Disjoint, Intersection emptiness and Distance (both orders) and compared with exact rational geometry: intersection from the exact joint arrangement, distance as the square root of the exact minimum squared feature distance, envelope lower bound, symmetry, and the triangle-like inequality on every triple of a reduced alphabet.",
    "Trust: exact/ + oracle/pair.go + checks/c09.go:exactDist2. Distance tolerance 1e-14 x max(magnitude, distance). General-position images are kept only when the exact arrangement clearance is >= 2e-6 x magnitude.",
    "bounded-exhaustive input enumeration on the real code against exact rational geometry", "4/C09"),
+ "C04": ("model_checking",
+   "Every structural shape S(d,w) (7 types, empty members at every position, nesting to depth 2 quick / 4 thorough) x 4 coordinate types x float-class ordinates at every alphabet rotation x per-element byte-order vectors (all 2^e up to 8 elements, else <=2 deviations) x trailing bytes: AsBinary/AppendWKB compared byte for byte with an independent WKB writer, UnmarshalWKB of the reference bytes compared with the original by a structural walker on float bits, re-encoding compared, input buffer checked for mutation and aliasing; Value/Scan of all concrete types, Geometry and NullGeometry for every source type and every wrong destination type.",
+   "Trust: refcodec/wkb.go (encoding/binary only) and refcodec/node.go (accessor walker). Big-endian hosts cannot be exercised on this box; XY ordinates are finite by the property's domain.",
+   "bounded-exhaustive enumeration of shapes x configurations on the real code against an independent reference codec", "4/C04"),
 }
 
 PENDING = {}
